@@ -234,7 +234,11 @@ impl CoverageFormat2<'_> {
             .ok()
             .map(|idx| {
                 let rec = &self.range_records()[idx];
-                rec.start_coverage_index() + gid.to_u16() - rec.start_glyph_id().to_u16()
+                // wrapping: `start_coverage_index + gid` can exceed u16::MAX even when the
+                // resulting index is in range (and font data can hold any values)
+                rec.start_coverage_index()
+                    .wrapping_add(gid.to_u16())
+                    .wrapping_sub(rec.start_glyph_id().to_u16())
             })
     }
 
